@@ -30,7 +30,9 @@ func runC11(c *Ctx, r *Report) {
 	r.Doc("R-C11.8", "nothing in the decode closure a fetch worker runs can panic on a malformed block (a panic in a worker goroutine ends the process, it is not a tolerated fault)")
 	importRules(c, r, "C12", []string{"R-C12.1", "R-C12.2", "R-C12.3", "R-C12.4"}, "R-C11.8")
 	r.Doc("R-C11.9", "the loops of the fetcher (queueing links, offering hashes) process every element")
-	loopsComplete(c, r, "R-C11.9", func(fn *Fn) bool { return inPkgs(c.P, fn, "entry") && rootNamed(fn, "processQueue", "addNextEntry", "addHashesToQueue", "Fetch", "updateClock") }, "hashes after the point where the loop stops are never requested")
+	loopsComplete(c, r, "R-C11.9", func(fn *Fn) bool {
+		return inPkgs(c.P, fn, "entry") && rootNamed(fn, "processQueue", "addNextEntry", "addHashesToQueue", "Fetch", "updateClock")
+	}, "hashes after the point where the loop stops are never requested")
 	r.Doc("R-C11.11", "the gate that decides whether a hash is requested answers 'no need' only on a positive finding and otherwise always asks the caller's exclusion function: no path answers without either")
 	{
 		ex := p.FuncI("entry", "Fetcher", "exclude")
